@@ -140,6 +140,9 @@ class Const(Expr):
     def subst(self, inst):
         return self
 
+# Priorities of the boolean connectives in the grammar of parser2.
+bool_priority = {"-->": 25, "|": 30, "&": 35}
+
 class Op(Expr):
     """One of pre-specified operators."""
     def __init__(self, op, *args):
@@ -161,16 +164,58 @@ class Op(Expr):
     def __repr__(self):
         return "Op(%s,%s)" % (self.op, ",".join(repr(arg) for arg in self.args))
 
+    def priority(self):
+        """Binding strength of the top operator, following the grammar in
+        parser2: implies < disjunction < conjunction < negation < atoms.
+
+        """
+        if self.op == '~' and len(self.args) == 1:
+            return 40
+        elif self.op in bool_priority and len(self.args) == 2:
+            return bool_priority[self.op]
+        else:
+            return 100
+
+    def is_arith(self):
+        return self.op in ('+', '-', '*')
+
     def __str__(self):
+        """Print so that parser2 reads back the same expression. The
+        grammar reads a chain of +, -, * as nested to the right, lets
+        unary minus and if-then-else extend as far right as possible,
+        and &, |, --> are right-associative.
+
+        """
+        def paren(s):
+            return '(' + s + ')'
+
         if len(self.args) == 1:
-            return "%s%s" % (self.op, str(self.args[0]))
+            arg, = self.args
+            s = str(arg)
+            if self.op == '~' and (isinstance(arg, (ITE, Forall)) or
+                                   (isinstance(arg, Op) and arg.priority() <= 40)):
+                s = paren(s)
+            if self.op == '-' and isinstance(arg, Op) and len(arg.args) == 2:
+                s = paren(s)
+            return "%s%s" % (self.op, s)
         elif len(self.args) == 2:
-            arg1 = str(self.args[0])
-            arg2 = str(self.args[1])
-            if self.op == '*' and isinstance(self.args[0], Op) and self.args[0].op in ('+', '-'):
-                arg1 = '(' + arg1 + ')'
-            if self.op == '*' and isinstance(self.args[1], Op) and self.args[1].op in ('+', '-'):
-                arg2 = '(' + arg2 + ')'
+            a1, a2 = self.args
+            arg1, arg2 = str(a1), str(a2)
+            if self.is_arith():
+                # Left argument must be atomic.
+                if (isinstance(a1, Op) and a1.is_arith()) or \
+                   (isinstance(a1, Const) and type(a1.val) == int and a1.val < 0):
+                    arg1 = paren(arg1)
+                if self.op == '*' and isinstance(a2, Op) and a2.op in ('+', '-'):
+                    arg2 = paren(arg2)
+                if self.op == '-' and isinstance(a2, Op) and a2.op in ('+', '-') and len(a2.args) == 2:
+                    arg2 = paren(arg2)
+            elif self.op in bool_priority:
+                p = bool_priority[self.op]
+                if isinstance(a1, (ITE, Forall)) or (isinstance(a1, Op) and a1.priority() <= p):
+                    arg1 = paren(arg1)
+                if isinstance(a2, (ITE, Forall)) or (isinstance(a2, Op) and a2.priority() < p):
+                    arg2 = paren(arg2)
             return "%s %s %s" % (arg1, self.op, arg2)
         else:
             raise NotImplementedError
